@@ -37,8 +37,9 @@ type catchmentStruct struct {
 // genetic distance, with ties broken by genome completeness. It is called before the catchment is written to
 // output, or if a new sequence is added to a catchmentStruct which is already at capacity
 func rearrangeCatchment(nS *catchmentStruct, catchmentSize int) {
+	// an undefined distance (NaN) sorts after every defined one
 	sort.SliceStable(nS.catchment, func(i, j int) bool {
-		return nS.catchment[i].distance < nS.catchment[j].distance || (nS.catchment[i].distance == nS.catchment[j].distance && nS.catchment[i].completeness > nS.catchment[j].completeness)
+		return (!math.IsNaN(nS.catchment[i].distance) && math.IsNaN(nS.catchment[j].distance)) || nS.catchment[i].distance < nS.catchment[j].distance || ((nS.catchment[i].distance == nS.catchment[j].distance || (math.IsNaN(nS.catchment[i].distance) && math.IsNaN(nS.catchment[j].distance))) && nS.catchment[i].completeness > nS.catchment[j].completeness)
 	})
 	nS.catchment = nS.catchment[0:catchmentSize]
 	nS.furthestDistance = nS.catchment[catchmentSize-1].distance
@@ -67,7 +68,7 @@ func findClosestN(query fastaio.EncodedFastaRecord, catchmentSize int, maxdist f
 		}
 
 		if maxdist != -1.0 {
-			if distance > maxdist {
+			if distance > maxdist || math.IsNaN(distance) {
 				continue
 			}
 		}
@@ -80,12 +81,12 @@ func findClosestN(query fastaio.EncodedFastaRecord, catchmentSize int, maxdist f
 				rearrangeCatchment(&neighbours, catchmentSize)
 			}
 
-		} else if distance < neighbours.furthestDistance {
+		} else if distance < neighbours.furthestDistance || (math.IsNaN(neighbours.furthestDistance) && !math.IsNaN(distance)) {
 			rs = resultsStruct{tname: target.ID, completeness: target.Score, distance: distance}
 			neighbours.catchment = append(neighbours.catchment, rs)
 			rearrangeCatchment(&neighbours, catchmentSize)
 
-		} else if distance == neighbours.furthestDistance && target.Score > neighbours.furthestCompleteness {
+		} else if (distance == neighbours.furthestDistance || (math.IsNaN(distance) && math.IsNaN(neighbours.furthestDistance))) && target.Score > neighbours.furthestCompleteness {
 			rs = resultsStruct{tname: target.ID, completeness: target.Score, distance: distance}
 			neighbours.catchment = append(neighbours.catchment, rs)
 			rearrangeCatchment(&neighbours, catchmentSize)
